@@ -59,4 +59,32 @@ impl HelperAttributeKinds {
 //@   spec r => ensures r == (HelperAttributeKinds { derive_ex: false, ..*self })
 //@ end
 }
+verus! {
+#[verifier::external_body]
+pub struct Attribute { _p: u8 }
+pub uninterp spec fn parsed(attrs: &[Attribute], op: CompareOp) -> HelperAttributeForCompareOp;     // result of parsing #[op(..)], if it succeeds
+pub uninterp spec fn default_attr() -> HelperAttributeForCompareOp;
+impl Default for HelperAttributeForCompareOp {
+    #[verifier::external_body]
+    fn default() -> (r: Self) ensures r == default_attr() { unimplemented!() }
+}
+pub open spec fn seen(attrs: &[Attribute], k: &HelperAttributeKinds, a: CompareOp) -> HelperAttributeForCompareOp {
+    if owned_cmp(k, a) { parsed(attrs, a) } else { default_attr() }
+}
+}
+#[verus_verify]
+impl HelperAttributeForCompareOp {
+    // parse_single / structmeta: out of reach; only "what it returns is a function of (attrs, op)" is assumed
+    #[verifier::external_body]
+    #[verus_spec(r => ensures r matches Ok(v) ==> v == parsed(attrs, op))]
+    fn from_attrs(attrs: &[Attribute], op: CompareOp) -> Result<Self> { unimplemented!() }
+}
+#[verus_verify]
+impl HelperAttributesForCompareOp {
+// C15/C01: which helper attributes a trait sees is decided by ownership (doc table) alone, attribute by attribute
+//@ fn item_type/compare_op.rs HelperAttributesForCompareOp::from_attrs
+//@   spec r => ensures r matches Ok(h) ==> h.ord == seen(attrs, kinds, CompareOp::Ord) && h.partial_ord == seen(attrs, kinds, CompareOp::PartialOrd)
+//@     |   && h.eq == seen(attrs, kinds, CompareOp::Eq) && h.partial_eq == seen(attrs, kinds, CompareOp::PartialEq) && h.hash == seen(attrs, kinds, CompareOp::Hash)
+//@ end
+}
 fn main() {}
